@@ -1,6 +1,7 @@
 package props
 
 import (
+	"encoding/json"
 	"fmt"
 	"runtime"
 	"sort"
@@ -12,6 +13,7 @@ import (
 	"github.com/anishathalye/porcupine"
 	"github.com/orda-io/orda/client/pkg/model"
 	"github.com/orda-io/orda/client/pkg/orda"
+	"github.com/wI2L/jsondiff"
 	"vh/bed"
 	"vh/core"
 	"vh/crdt"
@@ -390,7 +392,19 @@ func runC20(c *core.Case) *core.Result {
 					}
 					if kept != nil && rr.Intn(3) == 0 {
 						// through the kept child handle, outside any transaction of this goroutine
-						if _, e := kept.PutToObject(fmt.Sprintf("b%d", gi), tag(n)); e == nil {
+						if rr.Intn(3) == 0 {
+							// a two-step patch (paths are those of the whole document): a transaction
+							// of its own, whatever context the handle still carries
+							var ps []jsondiff.Operation
+							if json.Unmarshal([]byte(fmt.Sprintf(`[{"op":"add","path":"/box/p%d","value":%q},{"op":"add","path":"/box/q%d","value":%q}]`, gi, tag(n), gi, tag(n))), &ps) != nil || len(ps) != 2 {
+								panic("harness: patch steps not built")
+							}
+							if e := kept.Patch(ps...); e == nil {
+								atomic.AddInt64(&txCommitted, 1)
+								atomic.AddInt64(&txOps, 2)
+								atomic.AddInt64(&keptHandleCalls, 1)
+							}
+						} else if _, e := kept.PutToObject(fmt.Sprintf("b%d", gi), tag(n)); e == nil {
 							atomic.AddInt64(&okCalls, 1)
 							atomic.AddInt64(&keptHandleCalls, 1)
 						}
